@@ -169,7 +169,7 @@ def run(chk, replay=None):
     ok_cases = [c for c in cases if c[3] is not None]
     chk.count(len(ok_cases))
     pairs = tv.stats.get("parity-pairs", 0)
-    chk.part("universe", models=len(ok_cases), partner_pairs_checked=pairs)
+    chk.part("universe", models=len(ok_cases), partner_pairs_checked=pairs, shared_coefficient_pairs_checked=tv.stats.get("shared-coefficient-pairs", 0))
     if pairs == 0:
         raise Machinery("vacuous: no pair of parity-partner chains sharing a coefficient was found")
     for c in ok_cases:
@@ -180,6 +180,11 @@ def run(chk, replay=None):
     chk.sample({"label": s["label"], "nodes": s["trs"][0]["nodes"], "chains": [{k: ch[k] for k in ("sign_num", "coef")} for ch in s["chains"][:4] if ch.get("found")]})
     for clause, rid, info in tv.rejects:
         label, reaction, cfg, model, rec = byid[rid]
+        if clause == "coefficient-shared-only-by-related-chains":
+            chk.violation(f"{clause}:{'canonical' if rec['canonical'] else 'helicity'}",
+                          f"{label} cfg={rec['cfg']}: chains {info[0]} and {info[1]} carry the same coefficient {info[2]} although they are neither equal nor "
+                          f"parity partners (node-wise equal or reversed daughters / the same LS combination)", {"label": label, "cfg": rec["cfg"], "trs": [rec["trs"][info[0] - 1], rec["trs"][info[1] - 1]]})
+            continue
         n_constrained = sum(1 for n in rec["trs"][0]["nodes"] if n["eta"])
         etas = sorted({n["eta"] for n in rec["trs"][0]["nodes"] if n["eta"]})
         sig = f"{clause}:constrained-nodes={min(n_constrained, 2)}{'+' if n_constrained > 2 else ''}:{'unlike-eta' if len(etas) > 1 else 'like-eta'}"
@@ -224,7 +229,19 @@ def run(chk, replay=None):
             if j is not None and not tvb.rejects and tv0.rejects == []:
                 continue
             if tvb.rejects:
-                chk.part("binding_demo", corrupted="chains[0].sign", rejected_by=sorted({r[0] for r in tvb.rejects}))
+                # ... and give a chain that is NOT related to chain 0 the coefficient of chain 0
+                bad2 = copy.deepcopy(rec)
+                bad2.pop("label", None)
+                bad2["cfg"], bad2["id"] = "", 987657
+                c0 = bad2["chains"][0].get("coef")
+                k = next((i for i, ch in enumerate(bad2["chains"]) if i and ch.get("found") and ch.get("coef") and ch.get("coef") != c0), None)
+                rej2 = []
+                if k is not None and c0:
+                    bad2["chains"][k]["coef"] = c0
+                    rej2 = sorted({r[0] for r in trace.validate("Trace_Amplitude", [bad2]).rejects})
+                    if "coefficient-shared-only-by-related-chains" not in rej2:
+                        raise Machinery(f"binding demonstration failed: an unrelated chain under the coefficient of chain 0 was not rejected ({rej2})")
+                chk.part("binding_demo", corrupted="chains[0].sign; chains[k].coef := chains[0].coef", rejected_by=sorted({r[0] for r in tvb.rejects} | set(rej2)))
                 break
     else:
         raise Machinery("binding demonstration failed: no flipped sign was rejected")
